@@ -57,6 +57,17 @@ def slot_signature(t, k):
 
 
 # ---------------------------------------------------------------- edit histories
+_SNIPPETS = {}
+
+
+def load_snippet(text):
+    """mappyfile.loads(text), parsed once per text (each call returns a fresh deep copy)."""
+    import mappyfile
+    if text not in _SNIPPETS:
+        _SNIPPETS[text] = mappyfile.loads(text)
+    return copy.deepcopy(_SNIPPETS[text])
+
+
 def random_history(rng, d, n_ops):
     """Apply n_ops random dict-API edits to the (CaseInsensitiveOrderedDict) document d; returns the op log."""
     import mappyfile
@@ -120,7 +131,7 @@ def random_history(rng, d, n_ops):
                                ("labels", "LABEL TEXT '[name]' SIZE 8 END", True), ("projection", "LAYER PROJECTION 'init=epsg:3857' END END", False)])
             key, text, as_list = snip
             if schema_props(t, key) is not None or key in ("metadata", "projection"):
-                val = mappyfile.loads(text)
+                val = load_snippet(text)
                 if key == "projection":
                     val = val["projection"] if isinstance(val, dict) and "projection" in val else ["init=epsg:3857"]
                 ob[key] = [val] if as_list else val
@@ -164,7 +175,8 @@ def find_unrepresentable(v, path=""):
 
 
 def quote_clash(d, q):
-    return any(q in s or "\\" in s for s in P.strings_of(d))
+    """A string that will be written between quotes contains the output quote (outside the guarantee)."""
+    return any(q in s for s in P.strings_of(d) if not s.lstrip().startswith(("(", "NOT (")))
 
 
 def has_comments(v):
@@ -177,7 +189,7 @@ def has_comments(v):
 
 def hunt_one(ctx, name, o, d, stats, history=None):
     import mappyfile
-    if o["newlinechar"] == " " and has_comments(d):
+    if o["newlinechar"] == " " and (o["end_comment"] or has_comments(d)):
         o = dict(o, newlinechar="\n")      # a space is only an admissible newlinechar when no comments are emitted
     if P.has_multiline(d) or quote_clash(d, o["quote"]):
         stats["skipped_outside_guarantee"] += 1
@@ -207,6 +219,8 @@ def hunt_one(ctx, name, o, d, stats, history=None):
             stats["issue:" + fp] += 1
             if ctx.match_known(fp) is not None:
                 ctx.violation(fp, "", {})
+                return
+            if stats["issue:" + fp] > 1:
                 return
             ctx.violation(fp, "dumps wrote text for a dictionary holding a value with no Mapfile representation at %s (%s): %r"
                           % (bad[0], noform, text[:200]), dict(replay, fingerprint=fp))
@@ -246,6 +260,8 @@ def hunt_one(ctx, name, o, d, stats, history=None):
     if ctx.match_known(fp) is not None:
         ctx.violation(fp, "", {})
         return
+    if stats["issue:" + fp] > 1:
+        return                      # already reported (and shrunk) once in this run
 
     def fails(w, fp=fp):
         try:
@@ -265,21 +281,21 @@ def hunt_one(ctx, name, o, d, stats, history=None):
 def designed_docs():
     from mappyfile.ordereddict import CaseInsensitiveOrderedDict as CI
     import mappyfile
-    docs = [("allof-string", mappyfile.loads('LABEL EXPRESSION "abc" END')),
-            ("allof-hex", mappyfile.loads('CLASS BACKGROUNDCOLOR "#ff0000" END')),
-            ("list-binding", mappyfile.loads("LABEL SHADOWSIZE [a] [b] END")),
-            ("offset-binding", mappyfile.loads("STYLE OFFSET [a] 2 END")),
+    docs = [("allof-string", load_snippet('LABEL EXPRESSION "abc" END')),
+            ("allof-hex", load_snippet('CLASS BACKGROUNDCOLOR "#ff0000" END')),
+            ("list-binding", load_snippet("LABEL SHADOWSIZE [a] [b] END")),
+            ("offset-binding", load_snippet("STYLE OFFSET [a] 2 END")),
             ("hidden", CI(CI, [("__type__", "layer"), ("__position__", {"line": 1}), ("__tokens__", ["x"]), ("name", "x"), ("__x__", "y")]))]
-    l = mappyfile.loads("LAYER NAME 'x' END")
+    l = load_snippet("LAYER NAME 'x' END")
     _ = l["group"]
     docs.append(("autocreated-nonenum", l))
-    l2 = mappyfile.loads("LAYER NAME 'x' END")
+    l2 = load_snippet("LAYER NAME 'x' END")
     _ = l2["status"]
     docs.append(("autocreated-enum", l2))
-    l3 = mappyfile.loads("MAP NAME 'x' END")
+    l3 = load_snippet("MAP NAME 'x' END")
     _ = l3["web"]
     docs.append(("autocreated-object", l3))
-    l4 = mappyfile.loads("MAP NAME 'x' END")
+    l4 = load_snippet("MAP NAME 'x' END")
     _ = l4["layers"]
     docs.append(("autocreated-list", l4))
     return docs
